@@ -87,3 +87,16 @@ Definition pager_parser_agrees_stmt : Prop :=
     forall input f1 f2, tokens_in_range g input -> no_eof g input ->
       finished (run g (induced g pg) f1 input) -> finished (run g B f2 input) ->
       same_verdict (run g (induced g pg) f1 input) (run g B f2 input).
+
+(* the same with the premises the correspondence run evaluates per grammar: first_ref's tables, an
+   accepted LR(1) certificate (lr1_check on canon_lr1's automaton), validators on B *)
+Definition pager_parser_agrees_certified_stmt : Prop :=
+  forall g A nl fs max_st fuel orders pg B,
+    first_ref g = Some (nl, fs) -> lr1_check g A = true -> productive g ->
+    pager_mirror g nl fs max_st fuel orders = Done pg ->
+    validS g B = true -> validC g B = true -> validE g B = true ->
+    (validS g (induced g pg) = true /\ validC g (induced g pg) = true /\
+     validE g (induced g pg) = true /\ single_candidate g (induced g pg) = true) /\
+    forall input f1 f2, tokens_in_range g input -> no_eof g input ->
+      finished (run g (induced g pg) f1 input) -> finished (run g B f2 input) ->
+      same_verdict (run g (induced g pg) f1 input) (run g B f2 input).
